@@ -11,10 +11,12 @@ Scope of the proof: the **process-kill** failure model at the granularity of log
 (whole frames, atomic MANIFEST / snapshot publication).  That a torn frame is invisible to the
 reader and that tmp+fsync+rename+dir-fsync is atomic are byte/OS-level facts validated by the
 crash enumeration, not proved here.  Power loss (fsync-every-write) is validated by the same
-enumeration over synced-prefix states; the periodic-fsync clause is a known finding (no timer
-ever syncs an idle tail) — see DESIGN.md.
+enumeration over synced-prefix states.  The periodic-fsync clause has its own protocol model and
+theorems in `Theorems/C01Periodic.lean` (three defects on that path were repaired in the code:
+be0c955, c353f41).
 -/
 import KyroModel.Lemmas.PersistHistory
+import KyroModel.Theorems.C01Periodic
 
 namespace KyroModel.C01
 open KyroModel
